@@ -177,6 +177,7 @@ class Session:
         self.stats_sleep = 0
         self.current_task = threading.local()
         self.map_layouts = []
+        self.chunks_cut_short_by_stopiteration = 0
         strat = spec.get("strategy", "rtc")
         self.strategy = strat
         self.p = float(spec.get("p", 0.0))
@@ -299,12 +300,18 @@ class Session:
                 while queue and self.aborted is None:
                     i, chunk = queue.pop()
                     t.task_active = True
+                    def call(numbered_item):
+                        number, item = numbered_item
+                        self.tasks_run += 1
+                        self.current_task.value = (map_no, number)
+                        return func(*item) if star else func(item)
+
                     try:
-                        out = []
-                        for number, item in chunk:
-                            self.tasks_run += 1
-                            self.current_task.value = (map_no, number)
-                            out.append(func(*item) if star else func(item))
+                        # exactly what the real worker runs for a chunk (multiprocessing.pool.mapstar):
+                        # list(map(func, chunk)) -- so a StopIteration escaping a task silently ends the chunk
+                        out = list(map(call, chunk))
+                        if len(out) < len(chunk):
+                            self.chunks_cut_short_by_stopiteration += 1
                         results[i] = (True, out)
                     except Exception as e:  # what the real worker loop catches
                         results[i] = (False, e)
@@ -477,7 +484,7 @@ class SimPool:
             results, completion = [], []
             for i, chunk in enumerate(chunks):
                 try:
-                    results.append((True, [func(*x) if star else func(x) for x in chunk]))
+                    results.append((True, list(map((lambda x: func(*x)) if star else func, chunk))))
                 except Exception as e:
                     results.append((False, e))
                 completion.append(i)
@@ -487,11 +494,18 @@ class SimPool:
             ok, val = results[i]
             if not ok:
                 raise val
-        out = []
-        order = completion if unordered else range(len(results))
-        for i in order:
-            out.extend(results[i][1])
-        return out
+        if unordered:
+            out = []
+            for i in completion:
+                out.extend(results[i][1])
+            return out
+        # MapResult._set: self._value[i*chunksize:(i+1)*chunksize] = result  (a short chunk shifts nothing:
+        # the value list was pre-sized, a short slice assignment shrinks it -- reproduce it literally)
+        size = len(chunks[0]) if chunks else 1
+        value = [None] * len(items)
+        for i in completion:
+            value[i * size:(i + 1) * size] = results[i][1]
+        return value
 
     def map(self, func, iterable, chunksize=None):
         return self._run(func, iterable, chunksize)
